@@ -114,6 +114,17 @@ def gen_case(rng, name, rel, directed=None):
   o, opt = options_for(rng, name, rel, d, ncls)
   if name == 'RCA_Supervised':
     o['n_chunks'] = min(o.get('n_chunks', 6), int(sum(c // o.get('chunk_size', 2) for c in np.bincount(tr['y']))))
+  if name in ('RCA', 'RCA_Supervised') and o.get('n_components'):
+    # the reduction keeps the leading directions of total versus within-chunk covariance; the between-chunk scatter has
+    # rank <= (number of chunklets - 1), beyond which the generalised eigenvalues are exactly tied and the kept directions
+    # are not determined by the data at all (found by the thorough tier: 2 chunklets, n_components = 2): well-posed
+    # reductions only
+    nch = o['n_chunks'] if name == 'RCA_Supervised' else len(set(int(c) for c in tr['fit_args'][1] if c >= 0))
+    if o['n_components'] < d and o['n_components'] > nch - 1:
+      if nch - 1 >= 1:
+        o['n_components'] = nch - 1
+      else:
+        o.pop('n_components')
   T = {'t': np.round(rng.normal(size=d) * 16.0) / 4.0, 'Q': rand_Q(rng, d), 'c': float(rng.choice([0.5, 2.0, 3.0, 0.75, 5.0, 2.0 ** -16, 2.0 ** -21, 2.0 ** 13])),
        'perm': rng.permutation(len(X))}
   if directed == 'tiny_scale':
